@@ -1088,14 +1088,11 @@ class EventBus:
                 )
                 handler_tasks[handler_id] = (task, handler)
 
-            # Wait for all handlers to complete
+            # Wait for all handlers to complete (errors are already logged and recorded in execute_handler).
+            # gather() rather than awaiting the tasks one by one: a cancellation of this processing then reaches every
+            # handler task at once, instead of only the one being awaited while its siblings carry on until it has unwound
             try:
-                for handler_id, (task, handler) in handler_tasks.items():
-                    try:
-                        await task
-                    except Exception:
-                        # Error already logged and recorded in execute_handler
-                        pass
+                await asyncio.gather(*[task for task, _handler in handler_tasks.values()], return_exceptions=True)
             except asyncio.CancelledError:
                 # We are being cancelled (stop(), loop shutdown, an enclosing handler's timeout). Only the handler task awaited
                 # right now received that cancellation: do not leave the sibling handlers of this event running unobserved
